@@ -841,3 +841,9 @@ def replay(ctx, doc):
     f = oracle(inp["config"], inp["events"], obs)
     print(f)
     return bool(f)
+
+
+# the long-lived process: the same probe session after earlier sessions of the same server (props/history.py)
+from props import history as _history  # noqa: E402
+
+correspondence, search, replay = _history.attach(PID, correspondence, search, replay, pasts=['named-an-account-and-left', 'second-login-with-a-listener', 'second-login-with-a-parked-data-connection', 'every-passive-port-busy'])
